@@ -2,6 +2,7 @@ package trace
 
 import (
 	"context"
+	"errors"
 	"io"
 	rt "runtime/trace"
 	"sync"
@@ -261,3 +262,32 @@ func HarnessC10StartEndTraced() {
 	vndAssert(len(rec.ended) == 1, "span-delivered-to-processor-exactly-once-with-execution-tracer")
 	vndAssert(!span.IsRecording(), "not-recording-once-end-returned")
 }
+
+// ---- C10.endpanic: End deferred by a panicking goroutine (the panic is
+// recorded as an exception event, with or without a stack trace) racing a plain
+// End: delivered exactly once, single end time
+func HarnessC10EndPanicEnd() {
+	vndRaceOn(true)
+	s, rec, _ := c10Span(false)
+	withStack := vndChoice(2) == 1
+	var wg sync.WaitGroup
+	wg.Add(2)
+	go func() {
+		defer wg.Done()
+		defer func() { recover() }() // End re-panics after recording
+		func() {
+			defer s.End(trace.WithStackTrace(withStack))
+			panic(errC10)
+		}()
+	}()
+	go func() {
+		defer wg.Done()
+		s.End()
+	}()
+	wg.Wait()
+	vndReach("joined")
+	vndAssert(len(rec.ended) == 1, "span-delivered-to-processor-exactly-once")
+	vndAssert(!s.IsRecording(), "not-recording-once-end-returned")
+}
+
+var errC10 = errors.New("boom")
